@@ -1,6 +1,8 @@
 """C13 — pass-group selection follows the documented include/exclude/flag rules."""
 import itertools
 import json
+import re
+from pathlib import Path
 
 from vlib import conclude, REPO
 import realcode  # noqa: F401
@@ -187,8 +189,91 @@ def eager_from_source():
     return 'def parseEager : Bool := true' in gen.get('PassGroups.lean', '')
 
 
+def cli_part(ctx, only=None):
+    """the command-line front end: `cvise.py --list-passes` with --sllooww / --not-c / --renaming / --remove-pass for the
+    shipped groups and a custom group file must print exactly the schedule the documented rule selects (the flags reach the
+    parser unchanged)"""
+    import itertools
+    import os
+    import subprocess
+    import sys as _sys
+    import tempfile
+    import shutil
+    from concurrent.futures import ThreadPoolExecutor
+    d = Path(tempfile.mkdtemp(prefix='c13cli-', dir=ctx.scratch))
+    (d / 'stub' / 'chardet').mkdir(parents=True)
+    (d / 'stub' / 'chardet' / '__init__.py').write_text("def detect(b):\n    return {'encoding': 'ascii', 'confidence': 1.0}\n")
+    custom = {'first': [{'pass': 'blank'}, {'pass': 'lines', 'arg': '0', 'include': ['slow']}, {'pass': 'ints', 'arg': 'a', 'c': True}],
+              'main': [{'pass': 'clex', 'arg': 'rename-toks', 'renaming': True}, {'pass': 'clex', 'arg': 'rm-toks-1', 'renaming': True, 'c': True},
+                       {'pass': 'balanced', 'arg': 'curly', 'exclude': ['slow'], 'max-transforms': 3}, {'pass': 'peep', 'arg': 'a', 'include': ['windows', 'slow']}],
+              'last': [{'pass': 'special', 'arg': 'a', 'c': True, 'renaming': True}, {'pass': 'comments'}]}
+    (d / 'custom.json').write_text(json.dumps(custom))
+    groups = dict(shipped(), custom=custom)
+    env = dict(os.environ, PYTHONPATH=f"{d / 'stub'}:{REPO}", TMPDIR=str(d))
+    jobs = []
+    for gname in sorted(groups):
+        for slow, not_c, ren in itertools.product([False, True], repeat=3):
+            for rem in ([], ['BlankPass'] if gname != 'custom' else ['ClexPass::rename-toks']):
+                if rem and (slow or not ren):
+                    continue
+                jobs.append((gname, slow, not_c, ren, rem))
+    if only is not None:
+        jobs = [tuple(only)]
+    if ctx.tier == 'quick' and only is None:
+        jobs = [j for j in jobs if j[0] in ('custom', 'all') or (j[2] and j[3])]
+
+    def one(job):
+        gname, slow, not_c, ren, rem = job
+        cmd = [_sys.executable, str(REPO / 'cvise.py'), '--list-passes']
+        cmd += ['--pass-group-file', str(d / 'custom.json')] if gname == 'custom' else ['--pass-group', gname]
+        cmd += (['--sllooww'] if slow else []) + (['--not-c'] if not_c else []) + (['--renaming'] if ren else [])
+        if rem:
+            cmd += ['--remove-pass', ','.join(rem)]
+        cmd += ['test.sh', 'a.c']          # required positional arguments; --list-passes exits before they are looked at
+        r = subprocess.run(cmd, cwd=d, env=env, capture_output=True, text=True, timeout=120)
+        return r.returncode, r.stdout + r.stderr
+    try:
+        with ThreadPoolExecutor(max_workers=8) as ex:
+            results = list(ex.map(one, jobs))
+    finally:
+        shutil.rmtree(d, ignore_errors=True)
+    usable = 0
+    for job, (rc, text) in zip(jobs, results):
+        gname, slow, not_c, ren, rem = job
+        ctx.count()
+        if 'INITIAL PASSES' not in text:
+            ctx.notes['cli'] = 'cvise.py --list-passes did not print a listing here: ' + text[-200:]
+            continue
+        usable += 1
+        body = text[text.index('INITIAL PASSES'):]
+        got = {'first': [], 'main': [], 'last': []}
+        cur = None
+        for line in body.split('\n'):
+            line = re.sub(r'^\d\d:\d\d:\d\d\s+\w+\s+', '', line.strip())
+            if line in ('INITIAL PASSES', 'MAIN PASSES', 'CLEANUP PASSES'):
+                cur = {'INITIAL PASSES': 'first', 'MAIN PASSES': 'main', 'CLEANUP PASSES': 'last'}[line]
+            elif line and cur:
+                got[cur].append(line)
+        want = spec(groups[gname], ['slow'] if slow else [], rem, not_c, ren)
+        if want[0] != 'ok' or got != want[1]:
+            diff = next((c for c in CATS if got[c] != want[1][c]), None) if want[0] == 'ok' else None
+            ctx.report('front-end-schedule-differs-from-documented-rule',
+                       f"cvise.py --list-passes group={gname} slow={slow} not_c={not_c} renaming={ren} remove={rem}: {diff}: printed {got.get(diff)} expected {want[1].get(diff) if want[0] == 'ok' else want}"[:600],
+                       {'kind': 'cli', 'job': list(job)})
+        elif not_c or ren or slow:
+            ctx.nontrivial(('cli',) + tuple(map(str, job)))
+    ctx.notes.setdefault('cli_runs', usable)
+    if usable == 0:
+        from vlib import ToolTrouble
+        raise ToolTrouble('cvise.py --list-passes printed no listing in any run: ' + str(ctx.notes.get('cli'))[:300])
+
+
 def run(ctx):
     eager = eager_from_source()
+    if ctx.replay and json.load(open(ctx.replay)).get('kind') == 'cli':
+        cli_part(ctx, json.load(open(ctx.replay))['job'])
+        print('replayed ->', 'fails' if ctx.violations else 'holds')
+        return 1 if ctx.violations else 0
     if ctx.replay:
         o = json.load(open(ctx.replay))
         r = real_parse(o['dict'], o['active'], o['removed'], o['not_c'], o['renaming'])
@@ -221,6 +306,7 @@ def run(ctx):
         fam[r.split(':')[0] if not r.startswith('ok') else 'ok'] = fam.get(r.split(':')[0] if not r.startswith('ok') else 'ok', 0) + 1
         lines.append(model_line(d, active, rem, not_c, ren, eager))
         reals.append(r)
+    cli_part(ctx)
     outs = ctx.model(lines)
     for (d, active, rem, not_c, ren, tag), r, m in zip(cs, reals, outs):
         if r != m:
